@@ -226,7 +226,7 @@ func (g *grokGen) addPattern() *gen.Node {
 	return gen.NCall("add_pattern", str(name), str(regex))
 }
 
-var subjects = []string{"message", "f1", "t1", "v1", "nokey", "n1", "x1"}
+var subjects = []string{"message", "f1", "t1", "v1", "nokey", "n1", "x1", "_var", "_pt"}
 
 func (g *grokGen) grokCall(fields map[string]any, tags map[string]string) []*gen.Node {
 	nItems := g.n("nitems", 1, 3)
@@ -305,6 +305,18 @@ func (g *grokGen) grokCall(fields map[string]any, tags map[string]string) []*gen
 	case "v1":
 		pre = append(pre, gen.NSet("v1", str(text)))
 		g.feat["variable-subject"] = true
+	case "_var":
+		// the variable behind the spelling _ hides the point's message
+		pre = append(pre, gen.NSet([]string{"_", "message"}[g.n("uspelling", 0, 1)], str(text)))
+		if _, has := fields["message"]; !has {
+			fields["message"] = "### the point's own message"
+		}
+		subj = "_"
+		g.feat["underscore-variable-subject"] = true
+	case "_pt":
+		fields["message"] = text
+		subj = "_"
+		g.feat["underscore-subject"] = true
 	case "n1":
 		fields[subj] = int64(42)
 		g.feat["non-string-subject"] = true
@@ -599,23 +611,36 @@ func TestDefaultTime(t *testing.T) {
 		if rapid.IntRange(0, 9).Draw(t, "garbage") == 0 {
 			text = rapid.SampledFrom([]string{"not a time", "", "2021-13-45 99:99:99", "12345", "yesterday"}).Draw(t, "garbagetext")
 		}
-		sit := rapid.SampledFrom([]string{"field", "field", "variable", "tag", "absent"}).Draw(t, "situation")
+		sit := rapid.SampledFrom([]string{"field", "field", "variable", "tag", "absent", "underscore-variable", "variable@outer-block"}).Draw(t, "situation")
 		c := sem.NewCase(nil)
 		c.Fields = map[string]any{"keep": "k"}
 		c.Tags = map[string]string{}
 		var prog []*gen.Node
+		subj := id("ts")
 		switch sit {
 		case "field":
 			c.Fields["ts"] = text
-		case "variable":
+		case "variable", "variable@outer-block":
 			prog = append(prog, gen.NSet("ts", str(text)), gen.NCall("add_key", id("ts")))
 		case "tag":
 			c.Tags["ts"] = text
+		case "underscore-variable":
+			// the variable behind the spelling _ (it is called message) hides the point's message
+			c.Fields["message"] = "the point's own message"
+			prog = append(prog, gen.NSet(rapid.SampledFrom([]string{"_", "message"}).Draw(t, "uspelling"), str(text)))
+			subj = id("_")
 		}
+		var call *gen.Node
 		if zone == "" && rapid.Bool().Draw(t, "omitzone") {
-			prog = append(prog, gen.NCall("default_time", id("ts")))
+			call = gen.NCall("default_time", subj)
 		} else {
-			prog = append(prog, gen.NCall("default_time", id("ts"), str(zone)))
+			call = gen.NCall("default_time", subj, str(zone))
+		}
+		if sit == "variable@outer-block" {
+			// the variable lives in a block between the top level and the block of the call
+			prog = []*gen.Node{gen.NIf([]*gen.Node{gen.NBool(true)}, [][]*gen.Node{append(prog, gen.NIf([]*gen.Node{gen.NBool(true)}, [][]*gen.Node{{call}}, nil, false))}, nil, false)}
+		} else {
+			prog = append(prog, call)
 		}
 		c.Scripts[c.Root] = gen.FixAll(prog)
 		nt := tl.house || (zone != "" && zone != "UTC" && zone != "+0")
@@ -676,7 +701,7 @@ func TestXML(t *testing.T) {
 			evid.Label("xml/prefixed-document")
 		}
 		xp := rapid.SampledFrom(xpaths).Draw(t, "xpath")
-		sit := rapid.SampledFrom([]string{"field", "field", "variable", "tag", "absent", "non-string"}).Draw(t, "situation")
+		sit := rapid.SampledFrom([]string{"field", "field", "variable", "tag", "absent", "non-string", "underscore-variable", "variable@for-in"}).Draw(t, "situation")
 		dst := rapid.SampledFrom([]*gen.Node{id("out"), str("out"), gen.NAttr(id("o"), id("p")), id("src"), id("keeptag")}).Draw(t, "dst")
 		c := sem.NewCase(nil)
 		c.Fields = map[string]any{"keep": "k"}
@@ -692,7 +717,16 @@ func TestXML(t *testing.T) {
 		case "non-string":
 			c.Fields["src"] = int64(5)
 		}
-		prog = append(prog, gen.NCall("xml", id("src"), str(xp), dst.Clone()))
+		switch sit {
+		case "underscore-variable":
+			c.Fields["message"] = "<a>the point's own message</a>"
+			prog = append(prog, gen.NSet(rapid.SampledFrom([]string{"_", "message"}).Draw(t, "uspelling"), str(doc)), gen.NCall("xml", id("_"), str(xp), dst.Clone()))
+		case "variable@for-in":
+			// the subject is the variable of a loop, the call sits in a block of the loop body
+			prog = append(prog, gen.NForIn("src", gen.NList(str(doc)), []*gen.Node{gen.NIf([]*gen.Node{gen.NBool(true)}, [][]*gen.Node{{gen.NCall("xml", id("src"), str(xp), dst.Clone())}}, nil, false)}))
+		default:
+			prog = append(prog, gen.NCall("xml", id("src"), str(xp), dst.Clone()))
+		}
 		c.Scripts[c.Root] = gen.FixAll(prog)
 		nt := strings.Contains(xp, "@") || strings.Count(xp, "/") >= 2
 		v := judge(t, "xml", c, "xml/"+doc+"/"+xp+"/"+sit+gen.PrintExpr(dst), nt, "xml/"+sit)
@@ -739,7 +773,7 @@ func genSQL(t *rapid.T) string {
 func TestSQLCover(t *testing.T) {
 	rk.Check(t, "sql", 5, evid.Scale(800, 6000), func(t *rapid.T) {
 		sql := genSQL(t)
-		sit := rapid.SampledFrom([]string{"field", "field", "variable", "tag", "absent", "underscore"}).Draw(t, "situation")
+		sit := rapid.SampledFrom([]string{"field", "field", "variable", "tag", "absent", "underscore", "underscore-variable", "variable@for-init"}).Draw(t, "situation")
 		c := sem.NewCase(nil)
 		c.Fields = map[string]any{"keep": "k"}
 		c.Tags = map[string]string{"keeptag": "kt"}
@@ -755,8 +789,17 @@ func TestSQLCover(t *testing.T) {
 		case "underscore":
 			c.Fields["message"] = sql
 			key = id("_")
+		case "underscore-variable":
+			c.Fields["message"] = "select 'the point''s own message'"
+			prog = append(prog, gen.NSet(rapid.SampledFrom([]string{"_", "message"}).Draw(t, "uspelling"), str(sql)))
+			key = id("_")
 		}
-		prog = append(prog, gen.NCall("sql_cover", key))
+		if sit == "variable@for-init" {
+			prog = append(prog, gen.NSet("pass", gen.NInt(0)), gen.NFor(gen.NSet("q", str(sql)), gen.NBin("<", id("pass"), gen.NInt(1)), gen.NSet("pass", gen.NInt(1)),
+				[]*gen.Node{gen.NIf([]*gen.Node{gen.NBool(true)}, [][]*gen.Node{{gen.NCall("sql_cover", key)}}, nil, false)}))
+		} else {
+			prog = append(prog, gen.NCall("sql_cover", key))
+		}
 		c.Scripts[c.Root] = gen.FixAll(prog)
 		v := judge(t, "sql", c, "sql/"+sql+"/"+sit, true, "sql/"+sit)
 		if v != nil && sit == "field" {
